@@ -174,6 +174,10 @@ class BaseValidator(object):
         if not self._is_closed:
             # Closed even if a check fails, so each check is asked only once.
             self._is_closed = True
+            if not self._has_reset_checks:
+                # A run without any row (for example ``validate(..., validate_until=0)``, where
+                # ``rows()`` never starts) must not see what the CID was used for before.
+                self._reset_checks()
             try:
                 for check_name in self.cid.check_names:
                     self.cid.check_map[check_name].check_at_end(self.location)
@@ -282,16 +286,6 @@ class Reader(BaseValidator):
                 else:
                     assert self.on_error == "continue"
             self._location.advance_line()
-
-    def close(self):
-        if not self._is_closed and not self._has_reset_checks:
-            # ``rows()`` is a generator, so nothing has been reset yet in case no
-            # row was ever requested (for example ``validate(..., validate_until=0)``).
-            # The checks at the end must not see what the CID was used for before.
-            for check in self.cid.check_map.values():
-                check.reset()
-            self._has_reset_checks = True
-        super().close()
 
     def validate_rows(self):
         """
